@@ -30,6 +30,9 @@ pub struct Finding {
     pub seq: u64,
     /// Index of the operation in its client's program, if applicable.
     pub op_index: Option<usize>,
+    /// The injected fault under which it was observed (fault engines), for narrowing.
+    #[serde(default)]
+    pub fault: Option<crate::simfs::FaultSpec>,
 }
 
 impl Finding {
@@ -41,6 +44,7 @@ impl Finding {
             detail,
             seq: rt::current_seq(),
             op_index,
+            fault: None,
         }
     }
 
